@@ -200,7 +200,7 @@ impl Prop for C07 {
         ]
     }
     fn n_cases(&self, tier: Tier) -> u64 {
-        tier.pick(5000, 30000)
+        tier.pick(5000, 15000)
     }
     fn timeout_s(&self, tier: Tier) -> u64 {
         tier.pick(150, 400)
